@@ -1479,3 +1479,84 @@ func EdgeDominates(e Edge, b *ssa.BasicBlock) bool { return edgeDominates(e, b) 
 
 // StoresToAlloc lists the stores into a local variable (incl. from closures).
 func StoresToAlloc(al *ssa.Alloc) []*ssa.Store { return storesTo(al) }
+
+// Assign is one place where a variable-like value (a phi web or a spilled
+// local) receives a value: Val flows in at the end of block At.
+type Assign struct {
+	Val ssa.Value
+	At  *ssa.BasicBlock
+}
+
+// Assignments lists where the variable that v is a read of gets its values:
+// for a phi web, every non-phi incoming value with the predecessor block it
+// arrives from; for a load of a local, every store. A value that is neither
+// is its own single assignment (in its defining block).
+func Assignments(v ssa.Value) []Assign {
+	var out []Assign
+	seen := map[ssa.Value]bool{}
+	var rec func(v ssa.Value, at *ssa.BasicBlock)
+	rec = func(v ssa.Value, at *ssa.BasicBlock) {
+		s := Strip(v)
+		switch x := s.(type) {
+		case *ssa.Phi:
+			if seen[x] {
+				return
+			}
+			seen[x] = true
+			for i, e := range x.Edges {
+				rec(e, x.Block().Preds[i])
+			}
+			return
+		case *ssa.UnOp:
+			if x.Op == token.MUL {
+				if al := allocOf(x.X); al != nil {
+					if seen[al] {
+						return
+					}
+					seen[al] = true
+					sts := storesTo(al)
+					if len(sts) > 0 {
+						for _, st := range sts {
+							rec(st.Val, st.Block())
+						}
+						return
+					}
+				}
+			}
+		}
+		out = append(out, Assign{Val: s, At: at})
+	}
+	var at *ssa.BasicBlock
+	if in, ok := v.(ssa.Instruction); ok {
+		at = in.Block()
+	}
+	rec(v, at)
+	return out
+}
+
+// WalkOperands visits v and the values it is computed from (operands,
+// through phis and local loads), to the given depth.
+func WalkOperands(v ssa.Value, depth int, f func(ssa.Value)) {
+	seen := map[ssa.Value]bool{}
+	var rec func(v ssa.Value, d int)
+	rec = func(v ssa.Value, d int) {
+		if v == nil || seen[v] || d < 0 {
+			return
+		}
+		seen[v] = true
+		f(v)
+		for _, r := range Roots(v) {
+			if r != v {
+				rec(r, d-1)
+			}
+		}
+		if in, ok := v.(ssa.Instruction); ok {
+			for _, op := range in.Operands(nil) {
+				if *op != nil {
+					rec(*op, d-1)
+				}
+			}
+		}
+	}
+	rec(v, depth)
+}
